@@ -50,6 +50,33 @@ func implParse(p url.Parser, base *string, input string) Obs {
 	})
 }
 
+// seqStep is one call of a call sequence on one parser value
+type seqStep struct {
+	base *string
+	in   string
+}
+
+// seqIndependent: the answers of ONE parser value to a sequence of calls are the answers a parser that has parsed
+// nothing yet gives to each call alone (a parser keeps no memory of earlier calls: the model is a pure function of
+// options, base and input, and the implementation is compared with it call by call elsewhere; here the calls that
+// share an input, a base or a host follow each other directly, which a concurrent mix of unrelated jobs does not do)
+func (c *Ctx) seqIndependent(mk func() url.Parser, desc string, steps []seqStep, fam string, idx int) {
+	one := mk()
+	for k, st := range steps {
+		got := implParse(one, st.base, st.in)
+		want := implParse(mk(), st.base, st.in)
+		if diff := obsEq(want, got, urlFieldsOnly); diff != "" {
+			prev := ""
+			if k > 0 {
+				prev = steps[k-1].in
+			}
+			c.Report(Finding{Class: "violation", What: fmt.Sprintf("the result of call %d of a sequence on one parser depends on the calls before it (previous input %q): %s", k+1, prev, diff),
+				Case: Case{Kind: "parse", Cfg: desc, Base: st.base, Input: st.in, Family: fam, Index: idx}, Host: want.Fields0(fHostname)})
+			return
+		}
+	}
+}
+
 func modelParse(d *Driver, cfg *Cfg, base *string, input string) (Obs, string) {
 	cfg.Ensure(d)
 	var req string
